@@ -26,6 +26,8 @@ def configs(tier):
         add(spec('localp', 'localp', 2, 1, 1, order=1), 'Sc,C,Sv,L,L')
         add(spec('localp', 'localp', 1, 2, 2, order=1), 'Sv', -1, max_paths=48); add(spec('localp', 'localp-zero', 1, 3, 1, order=2), 'Sv', -1, max_paths=32)   # several outputs, all active: the per-output max of the classic criterion
         add(spec('wavelet', 'wavelet', 1, 1, 1, order=1), 'Sc,L,C'); add(spec('wavelet', 'wavelet', 1, 1, 0, order=3, limits=1), 'Sc,L,Sc', max_paths=12); add(spec('wavelet', 'wavelet', 2, 1, 0, order=3, limits=2), 'Sc,L,Sc', max_paths=8); add(spec('localp', 'localp-boundary', 2, 1, 1, order=1, limits=2), 'Sc,L,Sc')   # classic refinement under level limits add(spec('wavelet', 'wavelet', 2, 1, 1, order=1), 'Sf,L')
+        # exact zeros: refinement right after a merge (all values and coefficients are the constant zero) with the tolerance-zero class constructed by the solver
+        add(spec('wavelet', 'wavelet', 1, 1, 1, order=1), 'Sc,M,Sc', max_paths=10); add(spec('wavelet', 'wavelet', 2, 1, 1, order=3), 'Sc,M,Sf', max_paths=10); add(spec('localp', 'localp', 2, 1, 1, order=1), 'Sc,M,Sc', max_paths=10); add(spec('localp', 'semi-localp', 1, 2, 2, order=2), 'Sc,M,Sd', 1, max_paths=10)
         add(spec('sequence', 'rleja', 2, 1, 2), 'Sg,L,A,L', 0); add(spec('sequence', 'leja', 2, 2, 1), 'A,C,U,L', 0); add(spec('global', 'clenshaw-curtis', 2, 1, 1), 'A,L,U,M,L', 0)
         add(spec('global', 'clenshaw-curtis', 2, 1, 1), '?,?,L', 0, max_paths=60, strategy='tree'); add(spec('sequence', 'rleja', 2, 1, 1), '?,?,L', 0, max_paths=70); add(spec('localp', 'localp', 2, 1, 1, order=1), '?,?,L', -1, max_paths=90)   # solver-enumerated histories
         add(spec('global', 'leja', 2, 1, 2), 'Sg,L,C', 0); add(spec('global', 'clenshaw-curtis', 2, 1, 1), 'Ud,L', 0); add(spec('sequence', 'rleja', 2, 1, 1), 'Ud,L,A,L', 0); add(spec('fourier', 'fourier', 2, 1, 1), 'Ud,L', 0); add(spec('fourier', 'fourier', 2, 1, 1), 'U,M,L', 0); add(spec('fourier', 'fourier', 2, 1, 1), '?,?,L', 0, max_paths=70); add(spec('fourier', 'fourier', 2, 1, 1), 'A,L,U', 0)
